@@ -357,7 +357,7 @@ def rule_r2_save_load(prog: Program, col: Collector) -> None:
     for e in lft.calls():
         if is_global(e.func, "numpy.load") and e.args:
             loaded_files[fname(e.args[0], lp)] = e.term
-        if e.name == "open" and e.func[0] == "attr":
+        if e.name in ("open", "read_text", "read_bytes") and e.func[0] == "attr":
             f = fname(e.func[1], lp)
             if f:
                 loaded_files[f] = "json"
@@ -377,7 +377,7 @@ def rule_r2_save_load(prog: Program, col: Collector) -> None:
               f"files written {sorted(map(str, saved_files))} == files read {sorted(map(str, loaded_files))}", construct="file-names",
               necessity="a saved-then-loaded minimiser must continue identically")
     # keys read
-    params_t = [e.term for e in lft.calls() if is_global(e.func, "json.load")]
+    params_t = [e.term for e in lft.calls() if is_global(e.func, "json.load", "json.loads")]
     read_keys = set()
     for e in lft.events:
         for v in e.data.values():
